@@ -39,6 +39,8 @@ pub struct Sever {
     pub written: AtomicU64,
     /// first bytes written through this end (for "what did the peer see first")
     pub first_bytes: Mutex<Vec<u8>>,
+    /// this pipe end has been dropped by whoever owned it (connection closed)
+    pub dropped: AtomicBool,
 }
 
 impl Sever {
@@ -99,6 +101,12 @@ impl NetIo {
     fn progressed(&mut self) {
         self.ops += 1;
         self.seq += 1;
+    }
+}
+
+impl Drop for NetIo {
+    fn drop(&mut self) {
+        self.sever.dropped.store(true, Ordering::SeqCst);
     }
 }
 
@@ -214,6 +222,8 @@ pub struct ConnectorState {
     pub chop_server: (Vec<usize>, usize),
     /// sever handles of every connection handed out, in order
     pub conns: Mutex<Vec<Arc<Sever>>>,
+    /// state handles of the server ends of those connections
+    pub server_ends: Mutex<Vec<Arc<Sever>>>,
     /// server ends are offered here
     pub incoming: tokio::sync::mpsc::UnboundedSender<NetIo>,
     pub uris: Mutex<Vec<String>>,
@@ -252,6 +262,7 @@ pub fn connector(
                 ConnectMode::Succeed => {
                     let (c, s) = pipe(1 << 16, &st.chop_client, &st.chop_server);
                     st.conns.lock().unwrap().push(c.sever.clone());
+                    st.server_ends.lock().unwrap().push(s.sever.clone());
                     if st.incoming.send(s).is_err() {
                         return Err(io::Error::new(io::ErrorKind::ConnectionRefused, "server is gone"));
                     }
@@ -272,6 +283,7 @@ pub fn connector_state(mode: ConnectMode, delayed: bool, chop: usize) -> (Arc<Co
         chop_client: menu[chop % menu.len()].clone(),
         chop_server: menu[(chop / menu.len() + chop) % menu.len()].clone(),
         conns: Mutex::new(vec![]),
+        server_ends: Mutex::new(vec![]),
         incoming: tx,
         uris: Mutex::new(vec![]),
     };
